@@ -66,6 +66,7 @@ func cmdCheck(args []string) {
 	prop := fs.String("prop", "", "property id")
 	tier := fs.String("tier", "quick", "quick|thorough")
 	noEvidence := fs.Bool("no-evidence", false, "do not write the evidence file (selftest runs on scratch copies)")
+	noReplay := fs.Bool("no-replay", false, "do not look for a concrete failing input (corpus runs only need the verdict)")
 	fs.Parse(args)
 	if *prop == "" {
 		fmt.Fprintln(os.Stderr, "check: -prop required")
@@ -211,6 +212,7 @@ func cmdCheck(args []string) {
 		}
 		os.MkdirAll(replayDir, 0755)
 		path := filepath.Join(replayDir, sanitizeFile(o.name)+".txt")
+		skipReplay = *noReplay
 		suffix := writeReplay(e, o, path, *prop)
 		fmt.Printf("VIOLATION property=%s replay=%s%s\n", *prop, path, suffix)
 		exit = 1
@@ -279,7 +281,10 @@ func writeReplay(e *engine, o *oblig, path, prop string) string {
 	fmt.Fprintf(&sb, "solver verdict: %s (%s, %.1fs)\n", o.result, o.solver, o.secs)
 	fmt.Fprintf(&sb, "this obligation is discharged (unsat) on the unchanged tree; it is generated from the SSA of the current working tree of /repo\n")
 	suffix := " no-failing-input-found"
-	rep := tryReplay(e, o, prop)
+	var rep replayResult
+	if !skipReplay {
+		rep = tryReplay(e, o, prop)
+	}
 	if rep.found {
 		suffix = ""
 		fmt.Fprintf(&sb, "\n==== failing input replayed on the real code ====\n%s\n", rep.text)
@@ -382,6 +387,7 @@ func writeEvidence(e *engine, verif, prop, tier string, seed int, results []*fnR
 }
 
 var extraCoverage map[string]interface{}
+var skipReplay bool
 
 var trustedBase = []string{
 	"go/packages + go/ssa (x/tools v0.29.0) build the SSA of /repo's working tree",
